@@ -21,6 +21,12 @@ Runtime violation -> oracle failure; runtime clean but transcription rejected / 
 Read-path agreement (dict / tuple / pandas / single field / iteration / get_field / iterelites /
 best_elite / retrieve) is checked at runtime against `data()`; entries of object fields are compared
 by Python type and value, and against the payloads that were submitted.
+Scheduler.ask() / ask_dqd() are monitored calls as well (1, 2, 3 emitters of every class): the returned array may
+be writeable only if it overlaps nothing reachable from the emitters / archives, and it is overwritten once the
+matching tell / tell_dqd has returned. ArrayStore.add is also driven with chains of user transforms: every transform
+must be handed its own copies of occupied / cur_data (equal to retrieve() at that moment, disjoint from what earlier
+transforms were handed and from the store); in the monitored run every transform scribbles on them. Iteration entries
+are additionally kept, unmodified, across the later calls of a case and must not change.
 Constructors (every array-valued argument of archives, emitters, operators, gradient optimizers) and
 ArrayStore.from_raw_dict are monitored entry points like the others: the constructed object joins the
 case's world, so retention shows up both in the object graph and in later behaviour (centroids /
@@ -79,7 +85,13 @@ RULE = ("exhaustive enumeration of (entry point, argument layout in {python list
         "retrieve_single) and against what was submitted. Constructors: every array-valued constructor argument of "
         "the archives, emitters (incl. operator_kwargs) and gradient optimizers x layout x dtype, followed by adds / "
         "ask probes. ArrayStore.from_raw_dict from caller arrays (exact / view / strided) and from as_raw_dict() "
-        "output, followed by adds to both stores. One deterministic case for the open finding D40. A case "
+        "output, followed by adds to both stores. Scheduler hand-outs: (Scheduler / BanditScheduler) x every emitter "
+        "class x {1, 2, 3} emitters x add_mode, ask / tell and ask_dqd / tell_dqd rounds; every array returned by "
+        "ask / ask_dqd is checked against the object graph of emitters and archives and overwritten after the "
+        "matching tell (all scheduler strata). ArrayStore.add with chains of 2..4 user transforms (pass-through "
+        "transforms that use occupied / cur_data as scratch space, filters), kind of the first transform x layout x "
+        "dtype. Iteration entries kept unmodified across later adds and re-read. "
+        "One deterministic case for the open finding D40. A case "
         "is non-trivial when a monitored call receives at least one ndarray argument that np.asarray would not "
         "copy, or returns at least one array, on a non-empty callee state; counted once per distinct op list")
 PARTIAL = [
@@ -91,16 +103,20 @@ ASSUMPTIONS = [
     "NumPy semantics of the IR operations: asarray aliases iff no conversion is needed; basic slices, expand_dims, "
     "[None], .T, view() alias; fancy / boolean indexing, arithmetic, np.copy, astype allocate",
     "regions are atomic: any two views of one allocation are treated as overlapping",
-    "geometry properties (centroids, boundaries, lower_bounds ...) and Scheduler.ask()'s return value are outside "
-    "the property's list of outputs (DESIGN section 3) and are not flagged",
+    "geometry properties (centroids, boundaries, lower_bounds ...) are outside the property's list of outputs "
+    "(DESIGN section 3) and are not flagged; of Scheduler.ask() / ask_dqd()'s return value only the reference the "
+    "scheduler itself keeps until the matching tell is not flagged (see below)",
     "validate_batch rebinding add_info[name] = np.asarray(add_info[name]) in the caller's add_info dict keeps the "
     "values (a list entry becomes an equal ndarray) and is not counted as a mutation of a caller array",
     "geometry properties (lower_bounds, upper_bounds, dims, interval_size, boundaries, centroids, samples; "
     "ProximityArchive's cached bounds) and archive.dtypes hand out internal objects: outside the property's list "
     "of outputs, not flagged",
-    "Scheduler.ask() / emitter.ask() / ask_dqd() return arrays the object also keeps, and the rankers' "
-    "target_measure_dir setter keeps what it is given: not in the property's list, not flagged (ask results are "
-    "only used as probes of what a constructor kept)",
+    "emitter.ask() / ask_dqd() called directly on an emitter return arrays the emitter may also keep, and the "
+    "rankers' target_measure_dir setter keeps what it is given: not in the property's list, not flagged (these ask "
+    "results are only used as probes of what a constructor kept). Scheduler.ask() / ask_dqd(): the scheduler keeps "
+    "the returned array as the solutions of the open round (it is what tell() adds) -- that reference is not "
+    "flagged; but the array must be writeable only if it shares no memory with anything reachable from the "
+    "emitters or the archives, and overwriting it after the matching tell has returned must change nothing",
     "payload objects of object fields are stored and handed out by reference (the arrays holding them are "
     "copies); the monitor treats payloads as opaque values and checks their Python type and value on every read "
     "path against what was submitted",
@@ -633,6 +649,10 @@ def make_emitter(spec, archive, k):
         return GaussianEmitter(archive, sigma=0.25, x0=x0, batch_size=3, seed=seed)
     if kind == "iso":
         return IsoLineEmitter(archive, x0=x0, batch_size=3, seed=seed)
+    if kind == "genetic":
+        from ribs.emitters import GeneticAlgorithmEmitter
+        return GeneticAlgorithmEmitter(archive, operator="gaussian", x0=x0, batch_size=3,
+                                       operator_kwargs={"sigma": 0.25, "seed": seed})
     if kind == "es":
         return EvolutionStrategyEmitter(archive, x0=x0, sigma0=0.5, ranker=spec.get("ranker", "2imp"),
                                         es=spec.get("es", "cma_es"),
@@ -664,6 +684,9 @@ class World:
         self.objsol = self.obj in ("objsol", "both")
         self.registry = {}  # payload id -> typed fingerprint of the payload as submitted
         self.probe = []  # results of unmonitored probe calls (emitter.ask() ...), part of the observables
+        self.monitored = False  # the world of a case that gets garbage written into everything it hands out
+        self.handouts = []  # [label, array, told]: what Scheduler.ask() / ask_dqd() returned (monitored world)
+        self.kept = []  # (label, entry, fingerprint): iteration entries the caller keeps across later calls
         self.store2 = None  # a store built by ArrayStore.from_raw_dict
         self.watch_geometry = any(op.get("op") == "construct" for op in case.get("ops", []))
         self.archive = make_archive(self.kind, self.dt, case) if self.kind else None
@@ -802,7 +825,9 @@ class Call:
     """One monitored public call."""
 
     def __init__(self, name, lean, bits, args, invoke, is_iter=False, out_alias_ok=False, must_succeed=False,
-                 frozen=(), graph_roots=None):
+                 frozen=(), graph_roots=None, handout=None, post=None):
+        self.handout = handout  # label of a result the callee keeps until the matching tell (Scheduler.ask ...)
+        self.post = post  # extra check after the call: () -> Failure | None
         self.must_succeed = must_succeed  # an exception raised by this call is itself a failure
         self.frozen = frozen  # keys of World.observe() this call must leave unchanged
         self.graph_roots = graph_roots  # roots of the callee for this call (default: the whole world)
@@ -1032,6 +1057,132 @@ def calls_store_raw(w, op):
     yield Call("ArrayStore.as_raw_dict", "ArrayStore.as_raw_dict", [], [], lambda: w.store.as_raw_dict())
 
 
+# ---- ArrayStore.add with a chain of user transforms
+
+XF_KINDS = ("stat", "improve", "keep_better")
+# stat:        passes indices / new_data through unchanged (the same objects), reports statistics of what the
+#              store holds at the indices (from occupied / cur_data) in add_info
+# improve:     passes indices / new_data through unchanged; computes `new objective - stored objective` IN PLACE
+#              in its cur_data["objective"] (its own copy -> scratch space, like the shipped transforms do with
+#              cur_threshold / cur_objective) and reports a copy in add_info
+# keep_better: keeps the rows that go to an unoccupied index or beat the stored objective; returns the indices
+#              object it was given when every row is kept, a filtered copy otherwise
+
+
+def make_transform(w, kind, j, log):
+    """Transform number j of a chain. Every transform records what it was handed (`log`: the objects, for the
+    structural check after the call; w.probe: the values, so that they are part of what the twins must agree
+    on). In the monitored world every transform finally overwrites occupied / cur_data (they are documented as
+    'same as that given by retrieve()', i.e. the transform's own copies)."""
+
+    def transform(indices, new_data, add_info, extra_args, occupied, cur_data):
+        st = w.store
+        occ_now, cur_now = st.retrieve(indices)
+        # rows of unoccupied indices are uninitialised storage: only the rows of occupied indices are compared
+        m = np.array(occ_now, dtype=bool)
+        seen = (fp_value(occupied), sorted((k, fp_value(v if k == "index" or len(v) != len(m) else v[m]))
+                                            for k, v in cur_data.items()))
+        want = (fp_value(occ_now), sorted((k, fp_value(v if k == "index" else v[m])) for k, v in cur_now.items()))
+        log.append({"j": j, "kind": kind, "occupied": occupied, "cur_data": cur_data, "indices": indices,
+                    "stale": seen != want})
+        w.probe.append(("transform", j, kind, fp_value(indices), seen))
+        new_obj = np.asarray(new_data["objective"])
+        occ = np.array(occupied, dtype=bool)
+        if kind == "stat":
+            add_info[f"n_occupied_{j}"] = int(occ.sum())
+            add_info[f"stored_objective_{j}"] = np.where(occ, cur_data["objective"], 0)
+            out = indices, new_data, add_info
+        elif kind == "improve":
+            diff = cur_data["objective"]  # the transform's copy: used as scratch space
+            diff[~occ] = 0
+            np.subtract(new_obj, diff, out=diff)
+            add_info[f"improvement_{j}"] = diff.copy()
+            out = indices, new_data, add_info
+        else:
+            keep = ~occ | (new_obj > cur_data["objective"])
+            add_info[f"kept_{j}"] = keep.copy()
+            if keep.all():
+                out = indices, new_data, add_info
+            else:
+                out = indices[keep], {k: np.asarray(v)[keep] for k, v in new_data.items()}, add_info
+        if w.monitored:
+            trash_array(occupied)
+            for v in cur_data.values():
+                trash_array(v)
+        return out
+
+    return transform
+
+
+def chain_post(w, log, where_store):
+    """Structural part of the chain oracle: what transform j is handed is (by value) what retrieve() gives at
+    that moment, shares no memory with what an earlier transform was handed, and -- when writeable -- shares
+    no memory with the store."""
+
+    def post():
+        ints = None
+        for n, e in enumerate(log):
+            label = f"transform #{e['j']} ({e['kind']}) of the chain {[x['kind'] for x in log]}"
+            mine = [("occupied", e["occupied"])] + [(f"cur_data[{k!r}]", v) for k, v in e["cur_data"].items()]
+            for p in log[:n]:
+                if p["cur_data"] is e["cur_data"]:
+                    return Failure("oracle", f"ArrayStore.add: {label} was handed the very cur_data dict that "
+                                   f"transform #{p['j']} ({p['kind']}) was handed (not a copy)")
+                theirs = [("occupied", p["occupied"])] + [(f"cur_data[{k!r}]", v) for k, v in p["cur_data"].items()]
+                for na, a in mine:
+                    for nb, b in theirs:
+                        if isinstance(a, np.ndarray) and isinstance(b, np.ndarray) and overlaps(a, b):
+                            return Failure("oracle", f"ArrayStore.add: {na} handed to {label} shares memory with "
+                                           f"{nb} handed to transform #{p['j']} ({p['kind']}): not a copy")
+            if e["stale"]:
+                return Failure("oracle", f"ArrayStore.add: {label} was handed occupied / cur_data that differ "
+                               "from what retrieve(indices) returns at that moment")
+            if ints is None:
+                ints = internal_arrays([(where_store, w.store)])[0]
+            for na, a in mine:
+                if isinstance(a, np.ndarray) and a.flags.writeable:
+                    for path, ia in ints:
+                        if overlaps(a, ia):
+                            return Failure("oracle", f"ArrayStore.add: {na} handed to {label} is a writeable "
+                                           f"alias of internal {path}")
+        return None
+
+    return post
+
+
+def calls_store_chain(w, op):
+    """`ArrayStore.add(indices, new_data, extra_args, transforms)` with a chain of >= 2 user transforms."""
+    sol, obj, meas, _ = gen_rows(op["seed"], op["n"], w.dims)
+    r = np.random.default_rng(op["seed"] + 1)
+    idx = r.integers(0, 8, op["n"])
+    a = [mk(w, op, "indices", idx, 7, exact=np.int32, other=np.int64), mk(w, op, "objective", obj, 2),
+         mk(w, op, "measures", meas, 3), mk(w, op, "solution", sol, 1)]
+    bits = [("a", "indices", True), ("a", "measures", False), ("a", "objective", False), ("b",)]
+    data = {"objective": a[1].obj, "measures": a[2].obj, "solution": a[3].obj}
+    if w.obj:
+        tags, meta, osol = obj_values(w, op, op["n"], allow_list=lay_of(op, "meta") != "list")
+        if w.objsol:
+            a[3] = mk(w, op, "solution", osol, 1, exact=object, other=np.dtype("<U24"))
+            data["solution"] = a[3].obj
+        if w.has_tags:
+            a += [mk(w, op, "tags", tags, 9, exact=object, other=object),
+                  mk(w, op, "meta", meta, 10, exact=object, other=object)]
+            data.update({"tags": a[4].obj, "meta": a[5].obj})
+    log = []
+    chain = [make_transform(w, k, j, log) for j, k in enumerate(op["chain"])]
+    if w.monitored:
+        count(f"chain:length={len(chain)}")
+        count("chain:first=" + op["chain"][0])
+
+    def post():
+        if any(x["kind"] != "keep_better" for x in log[:-1]) and len(log) >= 2:
+            count("chain:pass-through-transform-followed-by-another")
+        return chain_post(w, log, "store")()
+
+    yield Call(f"ArrayStore.add(transforms={'+'.join(op['chain'])})", "ArrayStore.add", bits, a,
+               lambda: w.store.add(a[0].obj, data, {}, chain), post=post)
+
+
 # ---- ArrayStore.from_raw_dict
 
 
@@ -1229,20 +1380,95 @@ def sched_name(w):
     return type(w.sched).__name__
 
 
+DQD_EMITTERS = ("GradientArborescenceEmitter", "GradientOperatorEmitter")
+
+
+def handout_roots(w):
+    """What an array handed out by Scheduler.ask() / ask_dqd() must share nothing with: everything reachable
+    from the emitters and the archives. (The scheduler itself keeps the array as the solutions of the open
+    round, up to the matching tell; that reference is the scheduler's documented protocol, not a finding.)"""
+    out = [("archive", w.archive)] + [(f"emitter{k}", e) for k, e in enumerate(w.emitters)]
+    ra = getattr(w.sched, "_result_archive", None)
+    if ra is not None:
+        out.append(("result_archive", ra))
+    return out
+
+
+def reuse_handouts(w):
+    """The caller reuses (overwrites) the result arrays of Scheduler.ask() / ask_dqd() of rounds that have
+    been told: a round that is over must not reach the emitters / the archive through such an array."""
+    if not w.monitored:
+        return
+    rest = []
+    for h in w.handouts:
+        if h[2]:
+            if trash_array(h[1]):
+                count("handout:overwritten-after-the-matching-tell")
+        else:
+            rest.append(h)
+    w.handouts = rest
+
+
+def sched_ask(w, meth):
+    """Scheduler.ask() / ask_dqd() as a monitored call (any number of emitters, any emitter class): what it
+    returns is writeable only if it shares no memory with anything reachable from the emitters and the
+    archive; after the matching tell the monitored world overwrites it (just before the next ask), and the
+    emitters, the archive and everything asked later must agree with the clean twin."""
+    box = {}
+    label = f"{sched_name(w)}.{meth}"
+
+    def invoke():
+        reuse_handouts(w)
+        box["sols"] = getattr(w.sched, meth)()
+        return box["sols"]
+
+    return Call(label, None, [], [], invoke, handout=label, graph_roots=lambda: handout_roots(w)), box
+
+
+def telling(w, fn):
+    """A tell / tell_dqd that returned closes the round: from now on the caller may reuse the result of the
+    matching ask."""
+
+    def invoke():
+        r = fn()
+        for h in w.handouts:
+            h[2] = True
+        return r
+
+    return invoke
+
+
+def calls_sched_final(w, op):
+    """End of a scheduler case: the result arrays of all told rounds are overwritten and one more batch is
+    asked (ask_dqd when the scheduler has DQD emitters)."""
+    dqd = sched_name(w) == "Scheduler" and any(type(e).__name__ in DQD_EMITTERS for e in w.emitters)
+    c, _ = sched_ask(w, "ask_dqd" if dqd else "ask")
+    yield c
+
+
 def calls_tell(w, op):
-    sols = w.sched.ask()
+    c, box = sched_ask(w, "ask")
+    yield c
+    if "sols" not in box:
+        return
+    sols = box["sols"]
     n = len(sols)
     obj, meas, ex, _ = eval_values(op["seed"], n, w.dims)
     a = [mk(w, op, "objective", obj, 2), mk(w, op, "measures", meas, 3), mk(w, op, "ex", ex, 4)]
     lean = "BanditScheduler.tell" if sched_name(w) == "BanditScheduler" else "Scheduler.tell"
     bits = [("a", "objective", False), ("a", "measures", False), ("a", "ex", False),
             ("f", w.case.get("add_mode", "batch") == "single"), ("b",), ("b",)]
-    yield Call(f"{sched_name(w)}.tell", lean, bits, a, lambda: w.sched.tell(a[0].obj, a[1].obj, ex=a[2].obj))
+    yield Call(f"{sched_name(w)}.tell", lean, bits, a,
+               telling(w, lambda: w.sched.tell(a[0].obj, a[1].obj, ex=a[2].obj)))
 
 
 def calls_dqd_round(w, op):
     """ask_dqd / tell_dqd / ask / tell through the scheduler."""
-    sols = w.sched.ask_dqd()
+    c, box = sched_ask(w, "ask_dqd")
+    yield c
+    if "sols" not in box:
+        return
+    sols = box["sols"]
     n = len(sols)
     obj, meas, ex, jac = eval_values(op["seed"], n, w.dims)
     a = [mk(w, op, "objective", obj, 2), mk(w, op, "measures", meas, 3), mk(w, op, "ex", ex, 4),
@@ -1250,7 +1476,7 @@ def calls_dqd_round(w, op):
     bits = [("a", "objective", False), ("a", "measures", False), ("a", "ex", False), ("a", "jacobian", False),
             ("b",), ("b",)]
     yield Call("Scheduler.tell_dqd", "Scheduler.tell_dqd", bits, a,
-               lambda: w.sched.tell_dqd(a[0].obj, a[1].obj, a[3].obj, ex=a[2].obj))
+               telling(w, lambda: w.sched.tell_dqd(a[0].obj, a[1].obj, a[3].obj, ex=a[2].obj)))
     yield from calls_tell(w, dict(op, seed=op["seed"] + 1))
 
 
@@ -1414,7 +1640,7 @@ PREP = {
     "store_raw": calls_store_raw, "tell": calls_tell, "dqd_round": calls_dqd_round,
     "emitter_tell": calls_emitter_tell, "emitter_dqd": calls_emitter_dqd, "step": calls_step, "plot": calls_plot,
     "helper": calls_helper, "store_from_raw": calls_from_raw, "construct": calls_construct,
-    "ask_probe": calls_ask_probe,
+    "ask_probe": calls_ask_probe, "sched_final": calls_sched_final, "store_chain": calls_store_chain,
 }
 OUTPUT_OPS = {"retrieve", "retrieve_single", "sample", "best", "data", "iter", "cqd", "store_retrieve",
               "store_data", "store_raw", "readpaths"}
@@ -1524,6 +1750,12 @@ def monitor_call(w, call, where):
     ints = conts = None
     pre = w.observe() if call.frozen else None
     try:
+        if call.is_iter:
+            # a first pass whose entries the caller KEEPS (unmodified) across the later calls of the case: an
+            # entry is a snapshot of one elite, so whatever is added or overwritten later must not show in it
+            for k, e in enumerate(itertools.islice(call.invoke(), 8)):
+                w.kept.append((f"{where} {call.name} entry#{k}", e, fp_entry(e)))
+                count("iter:entries-kept-across-later-calls")
         res = call.invoke()
         if call.is_iter:
             # drain the iterator; every yielded entry is an output: check it, trash it, go on
@@ -1549,6 +1781,16 @@ def monitor_call(w, call, where):
         exc = type(e).__name__
         if call.must_succeed:
             return Failure("oracle", f"{where} {call.name}: raised {exc}: {str(e)[:160]}"), exc
+    if call.post is not None and exc is None:
+        f = call.post()
+        if f is not None:
+            return f, exc
+    if call.handout and isinstance(res, np.ndarray):
+        kinds = sorted({type(e).__name__ for e in w.emitters})
+        count(f"handout:{call.handout}:{'1-emitter' if len(w.emitters) == 1 else 'several-emitters'}")
+        for k in kinds:
+            count(f"handout:{call.handout}:{k}")
+        w.handouts.append([call.handout, res, False])
     if pre is not None:
         post = w.observe()
         for k in call.frozen:
@@ -1587,13 +1829,31 @@ def monitor_call(w, call, where):
     if obs0 != obs1:
         return Failure("oracle", f"{where} {call.name}: overwriting the caller's arrays after the call changed the "
                        f"callee: {diff_keys(obs0, obs1)[:4]}"), exc
-    if res is not None:
+    if res is not None and not call.handout:
+        # (a handed-out batch of solutions is the scheduler's until the matching tell: it is overwritten after
+        # that tell has returned, see reuse_handouts)
         trash_output(res)
         obs2 = w.observe()
         if obs1 != obs2:
             return Failure("oracle", f"{where} {call.name}: writing into the returned object changed the callee: "
                            f"{diff_keys(obs1, obs2)[:4]}"), exc
     return None, exc
+
+
+def fp_entry(e):
+    return sorted((str(k), fp_any(v)) for k, v in e.items()) if isinstance(e, dict) else fp_any(e)
+
+
+def check_kept(w):
+    """Entries of an earlier iteration that the caller kept are still what they were."""
+    for label, e, fp in w.kept:
+        count("iter:kept-entry-rechecked-after-a-later-call")
+        now = fp_entry(e)
+        if now != fp:
+            changed = [k for (k, a), (_, b) in zip(fp, now) if a != b] if isinstance(e, dict) else []
+            return Failure("oracle", f"{label}: the entry yielded by that iteration, kept unmodified by the caller, "
+                           f"changed after later calls (fields {changed}): it is not a copy of the elite")
+    return None
 
 
 def check_outputs(call, res, ints, conts, where, label):
@@ -1825,7 +2085,11 @@ def run_case(case):
 def _run_case(case):
     wa = World(case)  # monitored
     wb = World(case)  # clean twin
-    for i, op in enumerate(case["ops"]):
+    wa.monitored = True
+    ops = list(case["ops"])
+    if case.get("sched") and ops:
+        ops.append({"op": "sched_final"})  # the result arrays of the last round are reused as well
+    for i, op in enumerate(ops):
         where = f"op#{i}"
         if op["op"] == "readpaths":
             f = check_readpaths(wa, where)
@@ -1874,6 +2138,9 @@ def _run_case(case):
                 if f is not None:
                     return f
                 xb = clean_call(wb, cb)
+                f = check_kept(wa)
+                if f is not None:
+                    return f
                 oa, ob = wa.observe(), wb.observe()
                 if xa != xb or oa != ob:
                     return Failure("oracle", f"{where} {ca.name}: later behaviour differs from the clean twin run "
@@ -2081,11 +2348,15 @@ def gen_iter(rng, c):
     if o and rng.random() < 0.3:
         o = "both"
     dims = pick_dims(rng, rng.choice(DIM_PROFILES)) if rng.random() < 0.5 else list(DEFAULT_DIMS)
+    # the entries of the first iteration are kept by the caller across the later adds (cells are overwritten,
+    # the sliding archive remaps) and a second iteration
     if k == "store":
         return with_obj({"store": True, "dtype": d, "dims": dims,
-                         "ops": store_prefix(rng, rng.randint(1, 3)) + [{"op": "iter"}, {"op": "readpaths"}]}, o)
+                         "ops": store_prefix(rng, rng.randint(1, 3)) + [{"op": "iter"}, {"op": "readpaths"}] +
+                         store_prefix(rng, rng.randint(1, 2)) + [{"op": "iter"}]}, o)
     return with_obj({"arch": k, "dtype": d, "dims": dims,
-                     "ops": prefix_adds(rng, rng.randint(1, 3), k) + [{"op": "iter"}, {"op": "readpaths"}]}, o)
+                     "ops": prefix_adds(rng, rng.randint(1, 3), k) + [{"op": "iter"}, {"op": "readpaths"}] +
+                     prefix_adds(rng, rng.randint(1, 3), k) + [{"op": "iter"}]}, o)
 
 
 def combos_store():
@@ -2100,6 +2371,9 @@ def combos_store():
             for sel in ("all", "one", "some"):
                 out.append((d, "store_data", None, rt, sel))
         out.append((d, "store_raw", None, None, None))
+        for L in LAYOUTS:
+            for first in XF_KINDS:
+                out.append((d, "store_chain", L, first, None))  # rt slot: kind of the first transform
         for L in NOCOPY_LAYOUTS:
             out.append((d, "store_from_raw", L, None, "copy"))
         out.append((d, "store_from_raw", None, None, "readonly"))
@@ -2114,12 +2388,22 @@ def gen_store(rng, c):
         t["layout"] = L
     if o == "store_add":
         t["n"] = rng.choice([1, 3, 5])
+    if o == "store_chain":
+        # chain of 2..4 user transforms; the kind of the first one is enumerated, the others are drawn
+        t["n"] = rng.choice([2, 3, 5, 6])
+        t["chain"] = [rt] + [rng.choice(XF_KINDS) for _ in range(rng.randint(1, 3))]
+        rt = None
     if rt is not None:
         t["rt"], t["sel"] = rt, sel
     if o == "store_from_raw":
         t["src"] = sel
     ops.append(t)
     ops += store_prefix(rng, 1)
+    if o == "store_chain":
+        ops.append({"op": "store_chain", "n": rng.choice([2, 4]), "seed": rng.randrange(10**6),
+                    "layout": rand_layout(rng, STORE_ARGS),
+                    "chain": [rng.choice(XF_KINDS) for _ in range(rng.randint(2, 4))]})
+        ops.append({"op": "store_data", "rt": "dict", "sel": "all"})
     case = {"store": True, "dtype": d, "ops": ops}
     if rng.random() < 0.34:
         case["dims"] = pick_dims(rng, rng.choice(DIM_PROFILES))
@@ -2164,6 +2448,46 @@ def gen_sched(rng, c):
     ops += [{"op": "tell", "seed": rng.randrange(10**6), "layout": rand_layout(rng, TELL_ARGS)}
             for _ in range(rng.randint(1, 2))]
     return {"arch": k, "dtype": d, "sched": s, "add_mode": m, "emitters": EMITTER_SETS[e], "ops": ops}
+
+
+HANDOUT_KINDS = {"plain": ("gauss", "iso", "genetic", "es", "ga", "go"), "bandit": ("gauss", "iso", "genetic", "es")}
+
+
+def combos_handout(quick):
+    """(scheduler class x emitter class x number of emitters in {1, 2, 3} x add_mode); dtype crossed in the
+    thorough tier and rotated in the quick tier. DQD emitters run ask_dqd / tell_dqd / ask / tell rounds (plain
+    Scheduler only: BanditScheduler has no ask_dqd), the others ask / tell rounds."""
+    base = [(s, k, n, m) for s in ("plain", "bandit") for k in HANDOUT_KINDS[s] for n in (1, 2, 3)
+            for m in ("batch", "single")]
+    if quick:
+        return [(s, k, n, m, list(DTYPES)[i % 2]) for i, (s, k, n, m) in enumerate(base)]
+    return [(s, k, n, m, d) for (s, k, n, m) in base for d in DTYPES]
+
+
+def gen_handout(rng, c):
+    s, k, n, m, d = c
+    if k in ("ga", "go"):
+        other = "go" if k == "ga" else "ga"
+        kinds = [[k], [k, k], [k, other, "gauss"]][n - 1]  # three emitters: both DQD classes and a non-DQD one
+        specs = []
+        for x in kinds:
+            sp = {"kind": x}
+            if x in ("ga", "go"):
+                sp["normalize"] = rng.random() < 0.5
+            if x == "ga":
+                sp["grad_opt"] = rng.choice(["adam", "gradient_ascent"])
+            specs.append(sp)
+        o, names = "dqd_round", DQD_ARGS
+    else:
+        fill = {"gauss": "iso", "iso": "genetic", "genetic": "gauss", "es": "gauss"}[k]
+        kinds = [[k], [k, k], [k, fill, k]][n - 1]
+        specs = [{"kind": x} for x in kinds]
+        o, names = "tell", TELL_ARGS
+    ops = [{"op": "add", "n": 3, "seed": rng.randrange(10**6), "layout": "exact"}] if rng.random() < 0.5 else []
+    ops += [{"op": o, "seed": rng.randrange(10**6), "layout": rand_layout(rng, names)}
+            for _ in range(rng.randint(2, 3))]
+    return {"arch": rng.choice(["grid", "grid", "cvt"]), "dtype": d, "sched": s, "add_mode": m, "emitters": specs,
+            "ops": ops}
 
 
 def combos_dqd(kind, quick):
@@ -2391,6 +2715,7 @@ def strata(ctx):
         ("archive.iter", combos_iter(), gen_iter, (1, 10), (3, 20)),
         ("store", combos_store(), gen_store, (1, 8), (3, 30)),
         ("scheduler.tell", combos_sched(ctx.quick), gen_sched, (1, 5), (8, 90)),
+        ("scheduler.handout", combos_handout(ctx.quick), gen_handout, (1, 4), (8, 60)),
         ("dqd.arborescence", combos_dqd("ga", ctx.quick), gen_dqd, (1, 6), (4, 40)),
         ("dqd.operator", combos_dqd("go", ctx.quick), gen_dqd, (1, 6), (3, 40)),
         ("emitter.tell", et_combos, lambda rng, c: gen_emitter_tell(rng, c, et_specs), (1, 6), (3, 40)),
